@@ -1,0 +1,51 @@
+//go:build verif
+
+package servermode
+
+import (
+	"context"
+	"io"
+	"log/slog"
+	"time"
+
+	"github.com/simimpact/srsim/pkg/model"
+)
+
+// VerifPoolOutcome is what a worker pool had published when it was done (what /latest serves).
+type VerifPoolOutcome struct {
+	Added  int              // results the pool counted (currentCount)
+	Result *model.SimResult // nil after an error
+	Err    error
+	Done   bool // false: the pool did not finish within the deadline
+}
+
+// VerifPoolRun starts a worker pool the way Server.run does and, when cancelAfter > 0, cancels it the way
+// the /cancel handler and the timeout watchdog do (closing the cancel channel) once that many results were
+// counted. It returns when the pool is done (or the deadline has passed).
+func VerifPoolRun(cfg string, iterations, workers, flushInterval, cancelAfter int, deadline time.Duration) VerifPoolOutcome {
+	//nolint:exhaustruct // state fields start at their zero value, as in Server.run
+	wp := &workerpool{
+		id:      "verif",
+		yamlCfg: cfg,
+		log:     slog.New(slog.NewTextHandler(io.Discard, nil)),
+		cancel:  make(chan bool),
+		ctx:     context.Background(),
+	}
+	go wp.run(iterations, workers, flushInterval)
+	stop := time.Now().Add(deadline)
+	cancelled := false
+	for !wp.done && time.Now().Before(stop) {
+		if cancelAfter > 0 && !cancelled && wp.currentCount >= cancelAfter {
+			close(wp.cancel)
+			cancelled = true
+		}
+		time.Sleep(50 * time.Microsecond)
+	}
+	if !wp.done {
+		if !cancelled {
+			close(wp.cancel)
+		}
+		return VerifPoolOutcome{Added: wp.currentCount, Done: false}
+	}
+	return VerifPoolOutcome{Added: wp.currentCount, Result: wp.result, Err: wp.err, Done: true}
+}
